@@ -396,7 +396,13 @@ fn run_rules(vname: &'static str, rules: AuthorizationRules, thorough: bool) -> 
     shapes.extend(shared);
     // with a "demotion prelude" (the base then ends with a join-rule change by B followed by B's demotion: an unconflicted
     // power-levels event under which an event of the conflicted set is no longer allowed) for the two-fork shapes
-    let runs: Vec<(&Vec<Vec<usize>>, bool)> = shapes.iter().map(|s| (s, false)).chain(shapes.iter().filter(|s| s.len() == 2 && s.iter().all(|f| f.len() == 1)).map(|s| (s, true))).collect();
+    // ... and for the three-fork shapes with a shared first event (then two conflicted events can have the same power-levels
+    // ancestor that is off the mainline but not the oldest power-levels event)
+    let runs: Vec<(&Vec<Vec<usize>>, bool)> = shapes
+        .iter()
+        .map(|s| (s, false))
+        .chain(shapes.iter().filter(|s| (s.len() == 2 && s.iter().all(|f| f.len() == 1)) || (s.len() == 3 && s[1].first() == Some(&usize::MAX))).map(|s| (s, true)))
+        .collect();
     for (shape, prelude) in runs {
         for &tsmode in &timestamp_modes {
             let mut b = Builder { w: World { events: BTreeMap::new() }, n: 0 };
